@@ -16,7 +16,6 @@ Next == r = <<>> /\ p' = p /\ r' \in {rec \in TheSpace : H(M(rec)) % Slices = p}
 
 One(rec) == <<rec>>
 JsonLike == {"json", "jsonl", "yaml"}
-Carriers == {"dkvp", "csv", "tsv", "csvlite", "tsvlite"}    \* carry empty values
 \* the tabular formats that can carry the flattened record
 CanCarry(f, rec) == Carries(f, One(rec))
 
